@@ -40,7 +40,8 @@ func NewUnpackInfo(dst string, header *tar.Header) (UnpackInfo, error) {
 
 	// Check for paths outside our directory, they are forbidden
 	target := filepath.Clean(path)
-	if !strings.HasPrefix(target, dst) {
+	rel, err := filepath.Rel(filepath.Clean(dst), target)
+	if err != nil || rel == ".." || strings.HasPrefix(rel, ".."+string(filepath.Separator)) {
 		return UnpackInfo{}, errors.New("invalid filename, traversal with \"..\" outside of current directory")
 	}
 
